@@ -113,7 +113,8 @@ PLAN = {
              "to its station, records it and schedules exactly one fresh Unplug (precedence 0) at ev.departure, every other station keeps its "
              "occupant; an unplug vacates the station iff the session matches and never another one; network plugin/unplug/get_ev with KeyError / "
              "StationOccupiedError frames; on normal return the queue is empty, nothing is owed, the last event was one period before the final "
-             "counter and EVERY STATION IS VACATED (postcondition of run: an occupant would have its Unplug pending, and nothing is pending). BOUNDED: the "
+             "counter and EVERY STATION IS VACATED (postcondition of run: an occupant would have its Unplug pending, and nothing is pending); per period "
+             "(step clause): whoever is connected at the end of period t departs later than t - nobody stays connected into its departure period. BOUNDED: the "
              "remaining end-to-end lifecycle clause on whole simulations (each session connected in exactly [arrival, departure)) - a corollary of the "
              "proved invariant and step contract not restated as one obligation.",
         note="update_pilots / _update_schedules / _store_actual_charging_rates / _increase_width enter the loop proof through their contracts (C04 / C02); "
